@@ -34,6 +34,7 @@
 #include "opentelemetry/trace/span_metadata.h"
 #include "opentelemetry/trace/trace_state.h"
 #include "vh.h"
+#include "vh_guard.h"
 
 const char *vh_property_id = "C09";
 
@@ -114,6 +115,15 @@ std::string ref_encode(const uint8_t *tid, const uint8_t *sid, uint8_t flags)
 // Every header value lives in its own exact-size heap buffer WITHOUT a terminating NUL, so reading
 // one byte past a header is an ASan report; destroying the carrier scribbles and frees them, so a
 // view retained by the extracted context is a use-after-free report.
+// In "guard page" cases (a fixed function of the case's length) Get() hands out a copy that ends exactly
+// at an inaccessible page instead (vh_guard.h): an over-read by code ASan does not see is a SIGSEGV.
+bool g_guard_mode = false;
+void set_guard_mode(vh::Case &c)
+{
+  g_guard_mode = (c.rd.remaining() % 4) == 3;
+  if (g_guard_mode)
+    c.tag("carrier:values-end-at-a-guard-page");
+}
 class Carrier : public context::propagation::TextMapCarrier
 {
 public:
@@ -133,16 +143,20 @@ public:
   {
     char *b = new char[value.size()];
     std::memcpy(b, value.data(), value.size());
+    std::shared_ptr<vh::GuardedBytes> g;
+    if (g_guard_mode)
+      g.reset(new vh::GuardedBytes(value));
     for (auto &s : slots_)
       if (s.key == key)
       {
         std::memset(s.buf, 0xdd, s.n);
         delete[] s.buf;
-        s.buf = b;
-        s.n   = value.size();
+        s.buf   = b;
+        s.n     = value.size();
+        s.guard = g;
         return;
       }
-    slots_.push_back(Slot{key, b, value.size()});
+    slots_.push_back(Slot{key, b, value.size(), g});
   }
   const std::string *find(const std::string &key, std::string *tmp) const
   {
@@ -161,7 +175,7 @@ public:
     std::string k(key.data(), key.size());
     for (auto &s : slots_)
       if (s.key == k)
-        return nostd::string_view(s.buf, s.n);
+        return s.guard ? nostd::string_view(s.guard->data(), s.guard->size()) : nostd::string_view(s.buf, s.n);
     return null_when_absent_ ? nostd::string_view() : nostd::string_view("");
   }
   void Set(nostd::string_view key, nostd::string_view value) noexcept override
@@ -179,6 +193,7 @@ private:
     std::string key;
     char *buf;
     size_t n;
+    std::shared_ptr<vh::GuardedBytes> guard;
   };
   std::vector<Slot> slots_;
   bool null_when_absent_;
@@ -824,6 +839,7 @@ VH_TARGET(w3c_inject, 3,
           "an invalid context (nothing may be injected); distinct = distinct (ids, flags, remote, "
           "trace state, carrier/caller shape, earlier trace state)")
 {
+  set_guard_mode(c);
   vh::Reader &rd = c.rd;
   HttpTraceContext prop;
 
@@ -1273,6 +1289,7 @@ VH_TARGET(w3c_edits, 3,
           "2HEX-32HEX-16HEX-2HEX[-tail] (measured by an edit-distance computation); distinct = "
           "distinct (traceparent bytes, tracestate bytes, caller shape)")
 {
+  set_guard_mode(c);
   vh::Reader &rd = c.rd;
   ExtractIn in;
   in.caller_kind      = rd.below(4);
@@ -1464,6 +1481,7 @@ VH_TARGET(w3c_bytes, 2,
           "or when its (blank-trimmed) text is within 2 single-character edits of the shape "
           "2HEX-32HEX-16HEX-2HEX[-tail]; distinct = distinct input bytes")
 {
+  set_guard_mode(c);
   vh::Reader &rd   = c.rd;
   uint8_t ctl      = rd.u8();
   std::string rest = rd.bytes(rd.remaining());
@@ -1487,6 +1505,7 @@ VH_TARGET(w3c_helpers, 2,
           "IsValidHex: when the string has at most one non-hex byte; SplitString: when the number "
           "of separators is within 1 of the word limit; distinct = distinct call text")
 {
+  set_guard_mode(c);
   vh::Reader &rd = c.rd;
   switch (rd.weighted({4, 3, 4, 3}))
   {
